@@ -1536,6 +1536,8 @@ func propC13(r *Run, w *World) {
 
 	// R5 termination
 	terminationRule(r, w, "C13.R5", scope, map[string]string{}, map[string]string{})
+	r.Rule("C13.R6", "no String/Error method of the repository formats its own receiver under a verb that calls the method again (unbounded recursion is a fatal stack overflow that no caller can recover from); the rule package prints architectures, message types and filetypes through such methods", 5)
+	noRecursiveFormat(r, w)
 }
 
 func stripNumConv(v ssa.Value) ssa.Value {
